@@ -477,3 +477,15 @@ func (c *Client) sessionOpResult(r dragonboat.RequestResult) {
 	c.sessOp = ""
 	c.op, c.phase, c.rs = nil, 0, nil
 }
+
+// abandonAll forgets every outstanding request (all hosts are gone).
+func (c *Client) abandonAll() {
+	if c.op != nil && c.op.write && c.phase == 1 && c.sessOp == "" {
+		c.op.failed = "abandoned"
+		c.sim.orc.recordOp(c.op)
+	}
+	c.op, c.phase, c.rs, c.retry, c.session, c.deadSess, c.regSess = nil, 0, nil, nil, nil, nil, nil
+	c.sessOp = ""
+	c.held = nil
+	c.readDone = false
+}
